@@ -29,7 +29,8 @@ DRAIN_SHAPE = (
     "Selected::Transport(Ok(Message::Shutdown(Shutdown)))=>wait_for_shutdown=false,"
     "Selected::TransportFlushed(Ok(()))=>self.flush_transport=false,"
     "Selected::Transport(Err(e))|Selected::TransportFlushed(Err(e))=>{returnErr(RunError::Transport(e))}"
-    "Selected::Transport(Ok(_))|Selected::Handle(_)|Selected::AbortFunctionCall(_)=>{}}}Ok(())}"
+    "Selected::AbortFunctionCall(serial)=>self.function_calls.abort(serial),"
+    "Selected::Transport(Ok(_))|Selected::Handle(_)=>{}}}Ok(())}"
 )
 POLL_SELECT_SHAPE = (
     "{for_in0..4{matchself.next(){"
